@@ -21,10 +21,10 @@ theorem updateStatus_counter (st : Status) (tag : Option String) (s : St) : (upd
 
 theorem VRes_src (root : Bool) (s s' : St) (n : Node) (hs : srcOk n = true) (hc : s'.counter = s.counter) : VRes root s s' n n := by
   cases root
-  · exact ⟨by omega, by rw [hc]; exact VC.src _ _ n hs⟩
-  · exact ⟨0, VC.src _ _ n hs⟩
+  · exact ⟨by omega, by rw [hc]; exact EVC.src _ _ n hs⟩
+  · exact ⟨0, EVC.src _ _ n hs⟩
 
-theorem VRes_of_VC (root : Bool) (s s2 : St) (x n : Node) (hc : s.counter ≤ s2.counter) (h : VC s.counter s2.counter x n) :
+theorem VRes_of_VC (root : Bool) (s s2 : St) (x n : Node) (hc : s.counter ≤ s2.counter) (h : EVC s.counter s2.counter x n) :
     VRes root s ((if root = true then do resetCounter; pure x else pure x : M Node) s2).2
       ((if root = true then do resetCounter; pure x else pure x : M Node) s2).1 n := by
   cases root
@@ -38,7 +38,7 @@ theorem mapKidsM_run (g : Node → M Node) (n : Node) (s : St) :
   simp only [mapKidsM, run_bind, run_pure]
 
 theorem VRes_of_KRes (root : Bool) (s s' : St) (n : Node) (ks' : List Node)
-    (hgen : ∀ lo hi, KL lo hi ks' n.kids → VC lo hi (n.withKids ks') n) (h : KRes root s s' ks' n.kids) :
+    (hgen : ∀ lo hi, KL lo hi ks' n.kids → EVC lo hi (n.withKids ks') n) (h : KRes root s s' ks' n.kids) :
     VRes root s s' (n.withKids ks') n := by
   cases root
   · exact ⟨h.1, hgen _ _ h.2⟩
